@@ -255,6 +255,24 @@ func c15PlainRoomID(version, name string) string {
 	return "!" + name + ":" + c15Local
 }
 
+// c15OtherRoom: a room ID other than c15PlainRoomID(version, "room") - an unrelated one, or a near
+// miss of it (same opaque part on another server, another letter case, one character more or less).
+func c15OtherRoom(t *rapid.T, version string) string {
+	room := c15PlainRoomID(version, "room")
+	if vtraits[version].Creators {
+		flipped := []byte(room)
+		if c := flipped[len(flipped)-1]; c >= 'a' && c <= 'z' {
+			flipped[len(flipped)-1] = c - 'a' + 'A'
+		} else if c >= 'A' && c <= 'Z' {
+			flipped[len(flipped)-1] = c - 'A' + 'a'
+		} else {
+			flipped[len(flipped)-1] = 'A'
+		}
+		return rapid.SampledFrom([]string{c15PlainRoomID(version, "elsewhere"), c15PlainRoomID(version, "elsewhere"), string(flipped)}).Draw(t, "otherRoom")
+	}
+	return rapid.SampledFrom([]string{c15PlainRoomID(version, "elsewhere"), "!room:" + c15Remote, "!room:other.example", "!Room:" + c15Local, "!room:" + c15Local + ":8448", "!roo:" + c15Local}).Draw(t, "otherRoom")
+}
+
 func c15FakeEventID(version, seed string) string {
 	switch vtraits[version].IDFormat {
 	case 1:
